@@ -28,7 +28,9 @@ chk("C04", "model_checking",
     "lookup behaviour is replayed into the real sg.sg and compared with the table the model resolves. The space is "
     "finite and enumerated completely, which is the right level for a property about 13k lines of tables. One of the laws pins the "
     "orientation of the point group: rotations with the inversion added must equal the closure of the generators of the Laue group the "
-    "label names, in the axes of the setting.",
+    "label names, in the axes of the setting; two more use a reference table of the 56 symbols with a screw axis N_k along c (sense of the "
+    "enantiomorphic pairs) and demand that tables of different numbers are different sets of operations. Every third lookup overwrites "
+    "the arrays it received and repeats the lookup (results must not share storage).",
     "Trusted: TLC, the exporter's conversion of translations to 24ths (rejects anything off a 24th by >1e-4), "
     "numpy equality. Monoclinic metric basis assumes unique axis b (the only setting tabulated).",
     "TLA+ spec SpaceGroup.tla model-checked by TLC on exported tables + replay of every lookup behaviour into sg.sg",
@@ -40,7 +42,8 @@ chk("C15", "model_checking",
     "0.062505 that sits on rounding ties of a 1e-5 grid -, thorough: the full 12^3 grid + families) and checks "
     "orbit-stabiliser, divisibility, representative-independence and lattice-shift invariance in the model; every case is "
     "replayed into the real multiplicity() with float coordinates shifted by lattice vectors, by number+setting and by name, as list / "
-    "array / numpy-integer group number, lattice points also as Python ints; the multiplicity calls the repository's own tests make "
+    "array / numpy-integer group number, lattice points also as Python ints, names in four spellings (as tabulated, lower, upper, blanks); "
+    "the multiplicity calls the repository's own tests make "
     "are recorded and validated against the model as well.",
     "Trusted: TLC, exporter (24ths), the group laws of the tables (C04's subject; a table that is not a group is reported here too).",
     "TLA+ spec Multiplicity.tla (exact orbits over exported tables) model-checked by TLC + replay of every case into multiplicity()",
@@ -62,7 +65,8 @@ chk("C06", "model_checking",
     "Own TLC run of GenHkl.tla: the requirement 'exactly one member of every Laue family of the allowed set, expansion = allowed set' "
     "is checked in the model for the unit list; the real genhkl_unique (output_stl True/False) and genhkl_all (output_stl True) are "
     "replayed on every instance: integer rows, one representative per family, nothing else, genhkl_all = union of the families, "
-    "rows sorted by exact Q*, fourth column = sqrt(c Q*/4), shell bounds exclusive/inclusive; pseudo-tetragonal cells detuned by 4e-8 have "
+    "rows sorted by exact Q*, fourth column = sqrt(c Q*/4), shell bounds exclusive/inclusive (every table has a full and a deep shell; the "
+    "flag comes as Python bool, numpy bool, 0/1; a related request is issued first in the same process); pseudo-tetragonal cells detuned by 4e-8 have "
     "their order checked with exact fractions. Thorough tier: the segment tables are model-checked to be sound asymmetric units on EVERY "
     "conforming integer metric of a box (17.6k instances, 2.2M states), which also counts where the early exit loses families.",
     "Trusted: as C05. Known finding: early exit (same site).",
@@ -75,7 +79,8 @@ chk("C11", "model_checking",
     "coordinate requirement prescribes, the map is a bijection, inverse mode undoes forward mode, the coordinate functions are mutual "
     "inverses (quarter-pixel resolution), validation accepts exactly the signed permutation matrices (all 81). Every terminal state, "
     "every pixel, the 73 x 4 rejections, large non-square shapes (coordinates from TLC), exact circle points for eta/radius and whole "
-    "pixels (integer-typed, four containers) against a centre in quarter pixels are replayed into the real functions.",
+    "pixels (integer-typed, four containers) against a centre in quarter pixels are replayed into the real functions; images come as "
+    "small ints, int64 beyond 2^40, uint32 to 2^32-1, float64 with 53 bits, uint16 and bool.",
     "Trusted: TLC; numpy index semantics as written in Flips.tla (the replay compares them with numpy). Size convention as stated in the property.",
     "TLA+ specs Flips.tla / FlipsBig.tla / EtaRad.tla model-checked exhaustively by TLC + replay of every terminal state into xfab.detector",
     "DESIGN.md section 7 C11")
@@ -104,7 +109,8 @@ chk("C19", "model_checking",
     "and the full projected state compared after every call. hypothesis histories (<= 30 events; random doubles compared bit-exactly, "
     "ints to 2^62, numeric-looking/padded/blank text) recorded from the real object are validated by TLC against "
     "Trace_Parameters.tla; an intact canary trace must be accepted and two corrupted ones rejected on every run. The exhaustive alphabet "
-    "contains an integer no double represents (2^62+1) and the forced tail save -> load into a fresh object.",
+    "contains an integer no double represents (2^62+1), a name that is not a Python identifier (2th) and the forced tail save -> load into a "
+    "fresh object; every other float is handed over as numpy.float64.",
     "Trusted: TLC; the token<->value tables of the harness; Python facts (float repr round trip, int()/float() grammar). Text values come "
     "from templates of known kind; underscores in numeric text are not generated.",
     "TLA+ spec Parameters.tla model-checked/simulated by TLC; behaviours replayed step by step; implementation traces validated against Trace_Parameters.tla",
@@ -116,7 +122,8 @@ chk("C12", "model_checking",
     "trigonal/hexagonal) are proper rotations forming a group, and rot.B.perm = B on a basis of the conforming B matrices. It emits the "
     "exact rotations and, for seeded Cayley rotation pairs, the exact cosine of every misorientation. rotations(), ROTATIONS and "
     "Umis are compared with these values (pairs include misorientations of exactly 0 and exactly 180 degrees carrying rounding noise); the "
-    "four Umis invariances and Umis(U,U) containing 0 are run as metamorphic calls, every angle must be finite.",
+    "four Umis invariances and Umis(U,U) containing 0 are run as metamorphic calls, every angle must be finite; pairs 1e-3..1e-6 rad apart are "
+    "compared with angles taken from the exact operator tables through the antisymmetric part; axis-aligned rotations are also passed integer-typed.",
     "Trusted: TLC; float sqrt(3) in converting exact values; monoclinic basis for unique axis b.",
     "TLA+ spec Symmetry.tla (exact integer / Z[sqrt3] algebra) model-checked by TLC on exported tables + replay into rotations()/Umis",
     "DESIGN.md section 7 C12")
@@ -144,7 +151,9 @@ chk("C02", "model_checking",
     "UBI.UBI' = uG (rows are lattice vectors), UBI.(U.B.h) = (2pi)^w h, returned U = N'/D, B'B = adj G/(u det G), cell, Rodrigues vector. "
     "ub_to_u_b also runs on general integer matrices with det > 0 against the integer oracle B'B = M'M, U'U = I, det U = +1, U.B = M, "
     "including ill-conditioned ones given as exact factors P.diag(d).Q (condition number 1e3..1e6 by an exact bound). Every behaviour is "
-    "replayed at consecutive nearly equal and at extreme scales, through the call guard.",
+    "replayed at consecutive nearly equal and at extreme scales, through the call guard (arguments untouched, second call equal, earlier "
+    "results intact, a result overwritten by the caller does not change the next one). General rotations are also paired with cells of "
+    "special form (cubic, tetragonal, orthorhombic, each unique-axis monoclinic, hexagonal, rhombohedral).",
     "Trusted: TLC, float concretisation, tolerance 1e-9; uniqueness of the QR split by Cholesky (the defining conditions are what is checked).",
     "TLA+ spec Orient.tla (Cayley rationals x integer metrics) model-checked by TLC + step-by-step replay of every path into both modules",
     "DESIGN.md section 7 C02")
@@ -155,7 +164,8 @@ chk("C03", "model_checking",
     "N'N = den^2 I, det N = den^3 and the gimbal structure and emits the exact matrix, which the real builders of both modules must "
     "reproduce to 1e-12. u_to_euler and u_to_rod are run on every lattice matrix (PHI exactly 0/pi, axis-aligned, |r| up to 1000) and "
     "must return angles in range that rebuild the input to 1e-6; Rodrigues vectors up to |r| = 19 000 (179.994 degrees) must come back with "
-    "sign and size. Gimbal.tla enumerates the full product of magnitude classes for the "
+    "sign and size, and vectors up to 6e7 (2e-6 degrees short of the half turn, formed with unbounded integers) must rebuild the matrix to "
+    "1e-6; builders are called with shifted and with unshifted angles (exact zero tilts included). Gimbal.tla enumerates the full product of magnitude classes for the "
     "near-gimbal band (PHI = 0/pi +- 1e-1..1e-13, phi near 0, pi, 2pi); there the property itself is the oracle on a matrix the "
     "harness builds from its own Rz.Rx.Rz product.",
     "Trusted: TLC integer algebra; atan2/cos/sin of the harness to produce float arguments; the near-gimbal band is covered by classes, not by exact rationals.",
@@ -177,7 +187,8 @@ chk("C18", "model_checking",
     "under random unimodular changes of basis) with the order of equal-length vectors left nondeterministic, so TLC produces every "
     "outcome the code may legitimately return, with exact new metric V'GV and det V, and checks termination. The real reduce_cell "
     "(both modules) must return the cell of one allowed outcome. The rows-versus-columns defect is recognised exactly by its deviation "
-    "model (cell of R'R for an allowed outcome) and reported as a known finding; any other result is a violation.",
+    "model (cell of R'R for an allowed outcome) and reported as a known finding; any other result is a violation. Instances include cells that "
+    "satisfy the pairwise Buerger conditions but have a body diagonal shorter than c.",
     "Trusted: TLC; numpy Cholesky for the deviation model only; instances whose search range is too small (non-unimodular outcome) are outside the quantifier and counted as skipped.",
     "TLA+ spec ReduceCell.tla (nondeterministic tie order, exact integer lengths) model-checked by TLC + replay; three-way verdict with a named deviation model",
     "DESIGN.md section 7 C18")
@@ -225,7 +236,8 @@ chk("C08", "model_checking",
     "operation reaching it. From these the harness assembles the explicit P1 sum occ (f(s)+f'+i f'') DW exp(2 pi i phi/N) with an "
     "independent evaluation of the exported form-factor record and s^2 = c Q*(h)/4 on oblique conforming cells, and compares the complex "
     "StructureFactor with it (Uiso / generic Uani on general positions / isotropic-equivalent Uani / no ADP; dispersion present, partly None, "
-    "absent). Lattice-shift invariance, linearity in occupancy, Uiso = equivalent Uani and F(000) at U = 0 are run as metamorphic calls.",
+    "absent; occupancies 0, 1, fractional and above 1). Lattice-shift invariance, linearity in occupancy (halved and tripled), Uiso = equivalent "
+    "Uani and F(000) at U = 0 are run as metamorphic calls.",
     "Trusted: TLC; exported tables; the Debye-Waller and form-factor formulas of the oracle are written from the property text, not from the code.",
     "TLA+ spec StructFac.tla (exact orbit and phases) model-checked by TLC + explicit-sum oracle compared with StructureFactor",
     "DESIGN.md section 7 C08")
@@ -235,7 +247,8 @@ chk("C16", "model_checking",
     "(integers x 10^6), for each of the 94 entries: |sum a_i + c - Z| <= 0.1, all b_i > 0, one entry per element, and the sign patterns "
     "that settle monotonic decrease (all a_i b_i > 0) and positivity analytically. The exponentials TLC cannot evaluate are covered by "
     "replay: FormFactor(el, s) against an independent evaluation of the exported record on a grid of s in [0, 2], with positivity and "
-    "monotonic decrease checked on that grid for every entry; array arguments, also the same array object refilled in place between calls.",
+    "monotonic decrease checked on that grid for every entry; array arguments, also the same array object refilled in place between calls; "
+    "s typed as Python int, signed and unsigned numpy integers, float32.",
     "Trusted: TLC; 6-decimal export; grid evaluation for the entries whose sign pattern does not settle the claim analytically (B, N, Cl have c < 0: positivity is a grid fact).",
     "TLA+ spec FormFactor.tla (exact integer decisions per entry) model-checked by TLC + grid replay of FormFactor",
     "DESIGN.md section 7 C16")
